@@ -429,7 +429,8 @@ def c03_streams(tier, rng):
     # XBW answers rank queries although its IDs are co-lexicographic (recorded finding K6)
     k6 = kind_cases(tier, rng, ["XBW"], lambda k, pv, S, r: [["lrk", 1], ["xrk", 1], ["lrk", len(S)], ["xrk", len(S)], ["xrk", (len(S) + 1) // 2]],
                     battery=small_battery(tier, rng, 6), name="x")
-    return [StreamSet("order", "asan", main), StreamSet("xbwrank", "asan", k6)]
+    return [StreamSet("order", "asan", main), StreamSet("xbwrank", "asan", k6),
+            StreamSet("rpdac-layer", "asan", rpdac_cases(tier, rng, 30 if tier == "thorough" else 10), phase2=rpdac_phase2, timeout=60)]
 
 
 PROPS["C03"] = PropSpec(c03_streams,
@@ -898,6 +899,44 @@ def repair_inputs(tier, rng):
     return out
 
 
+def rpdac_phase2(case, impl_lines):
+    """The RPDAC object exported by the real code -> the Lean validator (hypotheses of the RPDAC theorems +
+    the model of the query layer run on the real grammar and sequences)."""
+    strs = ",".join(hx(s) for s in case[4]) or "-"
+    ops = []
+    k = 0
+    for l in impl_lines:
+        t = l.split()
+        if k >= len(case[5]):
+            break
+        src = case[5][k]
+        if len(t) >= 7 and t[1] == "RD":
+            d = dict(x.split("=", 1) for x in t[2:])
+            ops.append(["rdchk", strs, src[1] if len(src) > 1 else "-", d.get("t", "0"), d.get("rules", "-"), d.get("seqs", "-"), d.get("loc", "-"), d.get("abs", "-")])
+            k += 1
+        elif len(t) >= 2 and t[1] == "RQ":
+            ops.append(["rdskip"])
+            k += 1
+        elif not l.startswith("FAULT"):
+            ops.append(["rdchk", strs, "-", "0", "-", "-", "-", "-"])
+            k += 1
+    while len(ops) < len(case[5]):
+        ops.append(["rdchk", strs, "-", "0", "-", "-", "-", "-"])
+    return ops
+
+
+def rpdac_cases(tier, rng, k):
+    cases = []
+    r = rng.fork("rpdac")
+    for name, S in small_battery(tier, rng, k):
+        if sum(len(s) for s in S) > 40000:
+            continue        # the Lean validator expands every sequence: keep the exported structures moderate
+        qs = [q for q in gen.queries_members_and_neighbours(r, S, 12) if q not in set(S)][:16]
+        qh = ",".join(hx(q) for q in qs) or "-"
+        cases.append(("rq_%s" % name, "rpdac", "RPDAC", {}, S, [["rd", qh], ["reload"], ["rd", qh]]))
+    return cases
+
+
 def c20_streams(tier, rng):
     cases = []
     inputs = repair_inputs(tier, rng)
@@ -913,7 +952,8 @@ def c20_streams(tier, rng):
         return c01_ops(kind, pv, S, r)
     dcases = kind_cases(tier, rng, ["RPFC", "RPHTFC", "RPDAC", "HASHRPF", "HASHRPDAC"], fn,
                         battery=small_battery(tier, rng, 30 if tier == "thorough" else 10), name="g")
-    return [StreamSet("grammars", "asan", cases, phase2=repair_phase2, timeout=60), StreamSet("users", "asan", dcases)]
+    return [StreamSet("grammars", "asan", cases, phase2=repair_phase2, timeout=60), StreamSet("users", "asan", dcases),
+            StreamSet("rpdac-layer", "asan", rpdac_cases(tier, rng, 40 if tier == "thorough" else 12), phase2=rpdac_phase2, timeout=60)]
 
 
 PROPS["C18"] = PropSpec(c18_streams,
